@@ -288,3 +288,18 @@ impl LuaIndex for LuaMemberIndex {
         self.owner_members.clear();
     }
 }
+
+/// Verification hook (feature `verif-hooks`, off by default): entry count of every container
+/// of this index, so that tests can observe growth of indexed state.
+#[cfg(feature = "verif-hooks")]
+impl LuaMemberIndex {
+    pub fn verif_sizes(&self) -> Vec<(&'static str, usize)> {
+        vec![
+            ("member.members", self.members.len()),
+            ("member.in_filed", self.in_filed.len()),
+            ("member.in_filed.entries", self.in_filed.values().map(|m| m.len()).sum::<usize>()),
+            ("member.owner_members", self.owner_members.len()),
+            ("member.member_current_owner", self.member_current_owner.len()),
+        ]
+    }
+}
